@@ -23,6 +23,23 @@ CHECKS.update({
  "C18": ("vsched-fork","same generator with panicking mutators + fair completion (no deadlock / step bound) + directed sustained-overlap schedules (32 rounds, parameters generated)","§5 C18",
          "Exploration; liveness decided through finite surrogates (fair completion under a step bound, K-round periodic witness)."),
 })
+FP_NOTE = "trusts: the kernel of this sandbox as ground truth for signal delivery; one forked child per case starting from a normalised disposition table; proptest generators seeded from VERIF_SEED"
+CHECKS.update({
+ "C05": ("forkprobe","model-based: generated register/unregister/unregister_signal/deliver histories with real raise vs a per-signal ordered-list reference model; dispositions probed after every step","§5 C05",
+         "Exploration against a reference model over generated histories of up to 200 operations on up to 20 signals."),
+ "C12": ("forkprobe","model-based: generated new/add_signal/clone/drop histories over the full integer range x 3 exfiltrators; every watched signal probed by real raise after every step","§5 C12",
+         "Exploration against an instance model; process death and panicking drops are observations."),
+ "C13": ("forkprobe","generated descriptor kind x fill level x burst lengths x rejected registrations x descriptor-number reuse probe; byte-count oracle with measured capacity","§5 C13",
+         "Exploration with real deliveries into real pipes and sockets, including completely full ones."),
+ "C14": ("forkprobe","entry point x signal number table (enumerated) x generated prefixes; independent expectation table, dispositions/Arc counts/descriptors compared before and after","§5 C14",
+         "Exploration; the entry x boundary-number table is enumerated completely on every run (thorough: the whole [-2,130] range)."),
+ "C15": ("forkprobe","model-based: generated flag/shutdown/spy/store/deliver histories; exact wait status, flag values and in-handler spy records vs the model","§5 C15",
+         "Exploration against a model that replays each delivery's actions in registration order."),
+ "C16": ("forkprobe","differential: emulate_default_handler vs the kernel's own default action in paired probes (fresh non-orphaned process group), signal x context enumerated + generated extras; names vs C headers","§5 C16",
+         "Exploration / differential testing with the kernel as oracle; the signal x context table is enumerated completely on every run."),
+ "C17": ("forkprobe","differential: Origin::extract vs an independent decoder on generated siginfo images; real deliveries by 12 mechanisms vs getpid/getuid/child pid","§5 C17",
+         "Exploration over synthetic records (tens of thousands per run) plus every sending mechanism for real."),
+})
 NA = []
 ALL = ["C%02d"%i for i in range(1,19)]
 checks=[]
@@ -35,7 +52,7 @@ for pid,(eng,tech,ref,text) in CHECKS.items():
       "replay_cmd_template": f"./check {pid} quick --replay {{path}}",
       "engine": eng,
       "level_claimed": {"category":"exploration","text":text,"design_ref":ref},
-      "level_note": "trusts: the in-repo shim reports every shared-memory access of the code under test; the executor's memory model is a sound subset of C11; proptest generators seeded from VERIF_SEED",
+      "level_note": FP_NOTE if eng=="forkprobe" else "trusts: the in-repo shim reports every shared-memory access of the code under test; the executor's memory model is a sound subset of C11; proptest generators seeded from VERIF_SEED",
       "technique": "property-based testing: "+tech,
     })
 na=[{"property_id":p,"reason":"check not built yet in this session (planned, see DESIGN.md §5); not claimed until it is silent and sensitive"} for p in ALL if p not in CHECKS]
@@ -45,6 +62,7 @@ m={
  "hooks":{"guard":"sighook_verif","enable":"RUSTFLAGS=\"--cfg sighook_verif\" (set in /verif/harness/.cargo/config.toml)","baseline_off_cmd":"cd /repo && cargo test --workspace --no-fail-fast --offline","source_commits":hook_ids,"add_only":True},
  "engines":[
    {"name":"vsched-fork","path":"/verif/harness/src/reg.rs","serves_properties":["C01","C02","C03","C04","C18"],"kind_free_text":"the same executor, one forked child per case; deliveries are direct calls of the library's real dispatcher placed by the schedule (own thread or nested on the interrupted thread); real sigaction dispositions"},
+   {"name":"forkprobe","path":"/verif/harness/src/forkrun.rs","serves_properties":["C05","C12","C13","C14","C15","C16","C17"],"kind_free_text":"sequential generated histories interpreted against the real API in a forked child (real signals), observations streamed over a pipe, compared with a reference model or the kernel; how the child ended is an observation"},
    {"name":"vsched-inproc","path":"/verif/harness/src/vsched.rs","serves_properties":["C06","C07","C08"],"kind_free_text":"schedule-owning executor: token-passing OS threads, byte-encoded schedules, C11-subset memory model with vector clocks, nested operations; proptest generators and shrinking"},
  ],
  "checks":checks,
